@@ -238,15 +238,6 @@ Section Names.
     | None => None
     end.
 
-  (* F13e: no component schema is named like an OpenAPI primitive type.  The endpoint visitor of the client
-     resolves `{type: string}` against the schema table and finds the model `string`; MocksEmitter builds its
-     EndpointVisitor WITHOUT the schema table and gets `str` *)
-  Definition primitive_names : list str :=
-    [[115;116;114;105;110;103]; [105;110;116;101;103;101;114]; [110;117;109;98;101;114];
-     [98;111;111;108;101;97;110]; [97;114;114;97;121]; [111;98;106;101;99;116]].
-  Definition guard_F13e (schema_names : list str) : bool :=
-    forallb (fun n => negb (mem_str n primitive_names)) schema_names.
-
   (* the property's statement on groups *)
   Definition same_tags (l : list op) : Prop :=
     exists m c, mock_props l = Some m /\ client_props l = Some c /\ (forall x, In x m <-> In x c).
